@@ -87,6 +87,7 @@ func poolGetSim(p *sync.Pool) (interface{}, bool) {
 	}
 	if ps.n == 0 || pol == PoolFresh {
 		statPoolFresh++
+		trace(EvPoolFresh, me, 0, 0)
 		mix(0xF0)
 		return nil, false
 	}
@@ -101,6 +102,7 @@ func poolGetSim(p *sync.Pool) (interface{}, bool) {
 	}
 	x, o, s := poolTake(ps, k)
 	statPoolReuse++
+	trace(EvPoolReuse, me, k, int(o))
 	if int(o) != me {
 		statHandover++
 	}
@@ -118,6 +120,7 @@ func poolPutSim(p *sync.Pool, x interface{}) {
 	}
 	if poolDropPct > 0 && Draw(100) < int(poolDropPct) {
 		statPoolDrop++
+		trace(EvPoolDrop, me, 0, 0)
 		return
 	}
 	if ps.n == poolCap {
